@@ -119,6 +119,15 @@ def streams(rng, tier):
                 nontrivial=lambda op, impl: not impl.startswith("err eoi"))
     s1.shrinkable = False
     yield s1
+    size_ops = ["size tail -"] + ["size head %02x" % b for b in range(256)]
+    for op in tok_ops:
+        size_ops.append("size tail " + op.split(" ")[1])
+    for a in range(256):
+        for b in range(0, 256, 5):
+            size_ops.append("size tail %02x%02x" % (a, b))
+    s2b = Stream("size-hostile", "hcore", size_ops, rule="Size::head on all 256 bytes; Size::tail on every head with extreme arguments and on all 2-byte strings (sampled)")
+    s2b.shrinkable = False
+    yield s2b
     s2 = Stream("tokenizer-hostile", "hcore", tok_ops, rule="tokdec on every head with extreme declared lengths")
     s2.shrinkable = False
     yield s2
